@@ -7,6 +7,7 @@ import (
 	"net/http"
 	"reflect"
 	"runtime"
+	"strings"
 	"sync"
 	"time"
 
@@ -443,6 +444,14 @@ func c19Returns(run *ev.Run) {
 			return fmt.Errorf("outer: %w", connect.NewError(connect.CodeFailedPrecondition, errors.New("inner coded")))
 		}},
 		ret{"empty-message", func() error { return connect.NewError(connect.CodeInternal, errors.New("")) }},
+		// what recovery functions typically report: the panic value plus a stack
+		// trace, several KiB of text and no details
+		ret{"long-message-coded", func() error {
+			return connect.NewError(connect.CodeInternal, errors.New("panic: boom\n"+strings.Repeat("main.(*server).Handle(0xc00012a000, {0x7f3a, 0x1})\n\t/src/server.go:42 +0x1f\n", 100)))
+		}},
+		ret{"long-message-plain", func() error {
+			return errors.New("panic: boom - " + strings.Repeat("frame é ", 900))
+		}},
 	)
 	for _, protocol := range svc.Protocols {
 		for _, kind := range svc.Kinds {
